@@ -476,6 +476,9 @@ def run(chk):
     ]
     eng = Engine(chk)
     chk.guard('C12.sink', eng.run)
+    chk.rule('C12.spell', 'index-taking array / string functions give the same result for the int and the float spelling of every number (abstract execution, E6l)', floor=1000)
+    from .c15 import check_bounds
+    chk.guard('C12.spell', check_bounds, chk, 'C12.spell', ('spelling',))
     chk.guard('C12.chk', _integrality, chk)
     chk.guard('C12.chk', _type_tests, chk)
     chk.guard('C12.lit', _literals, chk)
